@@ -339,9 +339,9 @@ PROPS = {
     },
     "C03": {
         "custom": c03_run,
-        "streams": ["mut", "rand", "exh", "utf8", "big"],
+        "streams": ["mut", "rand", "exh", "utf8", "big", "dvl"],
         "disagreement_is_violation": True,
-        "rule": "dec requests for every catalogue type on four byte-string streams: mutations of valid encodings (bit flips, boundary bytes, truncation, extension, count tampering at the front and at inner positions with {0,1,2,63..65,2^14-1,2^14,2^30-1,2^30,2^32-2,2^32-1}, splices, insert/delete), random strings (tag-biased), exhaustive strings of length <=1 for all types and <=2 for small-alphabet types (boundary alphabet otherwise), and the UTF-8 stream (all 1-2 byte strings, 3-byte strings with lead E0..EF x all second bytes, boundary 4-byte forms); every call in catch_unwind. non-trivial = distinct request whose model answer is not `err` Also: `decpos` requests (where the slice stands after a FAILED decode); implementation-side oracles in `big`: 2^29-1 bits accepted and 2^29 bits rejected with 64 MiB of storage words present; straddling strings; 160 random compositions.",
+        "rule": "dec requests for every catalogue type on four byte-string streams: mutations of valid encodings (bit flips, boundary bytes, truncation, extension, count tampering at the front and at inner positions with {0,1,2,63..65,2^14-1,2^14,2^30-1,2^30,2^32-2,2^32-1}, splices, insert/delete), random strings (tag-biased), exhaustive strings of length <=1 for all types and <=2 for small-alphabet types (boundary alphabet otherwise), and the UTF-8 stream (all 1-2 byte strings, 3-byte strings with lead E0..EF x all second bytes, boundary 4-byte forms); every call in catch_unwind. non-trivial = distinct request whose model answer is not `err` Also: `decpos` requests (where the slice stands after a FAILED decode); implementation-side oracles in `big`: 2^29-1 bits accepted and 2^29 bits rejected with 64 MiB of storage words present; straddling strings; 160 random compositions. Also the `dvl` stream: the public decode_vec_with_len called directly with any length (incl. 2^32, usize::MAX/size ± 1, usize::MAX) over a slice and an unknown-length input.",
         "level_text": "Proved in Lean for every byte string: the modelled decoder is total (kernel-accepted recursion) and never panics (the unreachable!/assert!/UNEXPECTED ERROR sites are dead); it consumes a prefix only; for every wire-canonical type (all but maps/sets/heaps/bit sequences) decode bs = (ok v, rest) IFF wf v and bs = SCALE-encoding(v) ++ rest - the decoder accepts exactly the SCALE language; for EVERY type without bit sequences, incl. maps/sets/heaps at any nesting, decode bs = (ok v, rest) IFF bs = SCALE-encoding(raw) ++ rest for some well-formed raw and v = raw order-normalised (heaps sorted, maps/sets rebuilt by from_iter: any order and duplicates accepted, later entry wins) - via the theorem that such a decoder IS the decoder of the same type with plain sequences followed by normalisation, on every input; bit sequences: accepted inputs are exactly count <= 2^29-1 plus ceil(n/w) words of any content, value = first n unpacked bits (padding not inspected); each rejection the property names is a theorem (bad tags for bool/Option/Result/OptionBool, unknown variant index, zero NonZero, nanos >= 10^9, invalid UTF-8, non-minimal/over-wide compact, > 2^29-1 bits, primitive count exceeding the data). The model is tied to the crate on ~10^5 hostile and random strings per run incl. an exhaustive-prefix UTF-8 stream.",
         "level_note": "Known finding F5 (derived Decode on a type cycle that consumes no byte per level never returns) is probed in a process of its own and reported as KNOWN-FINDING; the model's types are finite trees, so such a type has no descriptor - that is the point the theorems exclude. Trusted: as C01. utf8Valid is the model's own UTF-8 automaton; its agreement with core::str::from_utf8 is established by the utf8 stream, not by proof. Out-of-bounds reads are not expressible in the model (the slice bounds check is modelled). Non-productive recursive types (finding F5) have no finite unfolding and are outside the model. For maps/sets/heaps/bit sequences only soundness (round trip of the normalised value), not the iff, is proved: their documented non-canonical acceptances (unsorted/duplicate entries, heap order, padding bits) are by design.",
         "trusted_base": COMMON_TB + ["core::str::from_utf8 (contract: utf8Valid), checked on the utf8 stream"],
@@ -380,7 +380,7 @@ PROPS = {
         "assumptions": ["limits are usize values (L <= 2^64-1)"],
     },
     "C08": {
-        "streams": ["stacks", "big"],
+        "streams": ["stacks", "big", "dvl"],
         "rule": "for every catalogue type, on exact, suffixed, mutated and truncated encodings: the same bytes decoded through 12 input stacks - &[u8], IoReader<Cursor>, IoReader over a reader delivering 1..3 bytes per call, a custom Input with remaining_len = None, decode_from_bytes (shared buffer incl. zero-copy path), CountedInput / MemTrackingInput(usize::MAX) / depth-limit(u32::MAX) alone and nested three deep in different orders over slice, unknown-length and short-read inputs; oracle on the implementation: every stack gives the slice's outcome (ok value + bytes consumed | err); the slice, IoReader and BytesCursor outcomes are also compared with the model's three input instances. non-trivial = distinct request whose model answer is not `err` Also: many sibling holders (8/70/300 Box/Rc/Arc elements, also of zero-sized pointees) under depth limits 3 and 8 alone and under counting+memory wrappers; big lengths and straddling strings through unknown-length inputs; `decbc` answered by the model's BytesCursor with position arithmetic (cursorInput).",
         "level_text": "Proved in Lean (lax simulation theorem over all decoder programs): over ANY input that delivers the bytes faithfully - whatever it reports as remaining length and wherever it stands after a failed read - every decoder returns what it returns over the slice: same success/failure and value, and on success the same bytes consumed. Instances proved faithful: the slice, the unknown-length read_exact reader (IoReader / short-chunk readers / custom None-length inputs), the BytesCursor incl. its zero-copy scale_internal_decode_bytes override, and CountedInput over any faithful input. Depth- and memory-limit wrappers over ANY input are proved transparent (same result and wrapped-input state) whenever their limit is non-binding (>= needed depth / > tracked usage) and never to turn a failure into a success; so wrappers stack in any order. The only decoder branch that consults remaining_len (read_vec_from_u8s) is shown to reject early exactly when the chunked reads would reject later. Tied to the crate by the stacks stream.",
         "level_note": "Trusted: as C01; std::io::Read::read_exact and bytes::Bytes (advance/split_to) are modelled by contract (all-or-nothing delivery). After a FAILED decode the position of a non-slice input is unspecified and not compared. Inputs longer than usize::MAX bytes are excluded (`bounded`).",
@@ -469,9 +469,9 @@ PROPS = {
         "assumptions": ["the element type's Drop only records"],
     },
     "C09": {
-        "streams": ["alloc", "allocf4"],
+        "streams": ["alloc", "allocf4", "dvl"],
         "custom": c09_run,
-        "rule": "the harness runs under a counting global allocator (armed only around the decode call; self-tested on every run). For every catalogue type (all sequence/map/set/list/heap/deque/string/bit-sequence/byte-buffer kinds and their nestings, derived types): valid encodings, and encodings in which each byte position in turn (every position of short encodings, 8 random positions of longer ones) is overwritten by a hostile compact count (2^16, 2^20, 2^24, 2^28, 2^30-1, 2^30, 2^32-2, 2^32-1) followed by 0, <64, 4096, 20000 or 65536 bytes of plausible payload; each decoded from a slice, a custom input with remaining_len = None, IoReader<Cursor>, the shared buffer (decode_from_bytes) and a zero-sized input type. (1) `reqs` requests - exact tie of the request model: for every type all of whose allocations are the crate's own (Vec/VecDeque/BinaryHeap/LinkedList/String/Box/arrays/tuples/options/enums/derived types over them; not Rc/Arc/B-trees/Bytes/BitVec/GenericArray) the allocator's view of the decode - number of requests, sum of requested bytes (fresh allocations plus realloc growth), largest request, and ok/err - from the slice and from the unknown-length input is compared for EQUALITY with the model's request trace (Impl.decodeR run under the request recorder; on failing decodes requests of exactly size_of::<Error>() - the boxed cause of a chained error - are left out on both sides); inputs above 4200 bytes are sampled 1 in 16. (2) oracles on the implementation for every type and input kind: largest single allocation <= max(64 KiB, 192 x input bytes) + 8 KiB + size_of::<T>(); peak live bytes <= 8 x 64 KiB + 192 x input bytes + 8 KiB + size_of::<T>(); no panic; a request above 2 GiB is refused and the resulting abort attributed to the request being executed. Outcomes of inputs of at most 80 bytes are also compared with the model. non-trivial = distinct request whose model answer is not `err`",
+        "rule": "the harness runs under a counting global allocator (armed only around the decode call; self-tested on every run). For every catalogue type (all sequence/map/set/list/heap/deque/string/bit-sequence/byte-buffer kinds and their nestings, derived types): valid encodings, and encodings in which each byte position in turn (every position of short encodings, 8 random positions of longer ones) is overwritten by a hostile compact count (2^16, 2^20, 2^24, 2^28, 2^30-1, 2^30, 2^32-2, 2^32-1) followed by 0, <64, 4096, 20000 or 65536 bytes of plausible payload; each decoded from a slice, a custom input with remaining_len = None, IoReader<Cursor>, the shared buffer (decode_from_bytes) and a zero-sized input type. (1) `reqs` requests - exact tie of the request model: for every type all of whose allocations are the crate's own (Vec/VecDeque/BinaryHeap/LinkedList/String/Box/arrays/tuples/options/enums/derived types over them; not Rc/Arc/B-trees/Bytes/BitVec/GenericArray) the allocator's view of the decode - number of requests, sum of requested bytes (fresh allocations plus realloc growth), largest request, and ok/err - from the slice and from the unknown-length input is compared for EQUALITY with the model's request trace (Impl.decodeR run under the request recorder; on failing decodes requests of exactly size_of::<Error>() - the boxed cause of a chained error - are left out on both sides); inputs above 4200 bytes are sampled 1 in 16. (2) oracles on the implementation for every type and input kind: largest single allocation <= max(64 KiB, 192 x input bytes) + 8 KiB + size_of::<T>(); peak live bytes <= 8 x 64 KiB + 192 x input bytes + 8 KiB + size_of::<T>(); no panic; a request above 2 GiB is refused and the resulting abort attributed to the request being executed. Outcomes of inputs of at most 80 bytes are also compared with the model. non-trivial = distinct request whose model answer is not `err` Also the `dvl` stream: decode_vec_with_len called directly with any length; allocator oracle and hook announcements compared with the model.",
         "level_text": "Proved in Lean for EVERY byte string (valid, truncated, hostile; successful or failing decode), over a slice and over a reader that cannot report its remaining length (any `PlainIn` input): the heap memory the decoder REQUESTS - every reserve_exact of decode_vec_chunked (item and bulk paths), every Box allocation, one node per element handed to from_iter for lists/sets/maps, made explicit in the request-instrumented decoder Impl.decodeR, which is proved to be the decoder itself up to alloc nodes (same result and rest on every hook-free input) - is at most reqRatio(ty) x bytes CONSUMED + the type's fixed pointees + reqAllow(ty), where reqAllow is one MAX_PREALLOCATION (16 KiB) plus one element's fixed pointees per level of sequence nesting, and without the allowance when the decode succeeds (requests_linear_in_consumed_partial / _in_input_partial: induction over all programs and all types through the chunk loops; claimed counts do not occur in the bound). Hypothesis `productive ty` (every sequence element type consumes >= 1 byte - decidable); without it the statement is proved FALSE (unproductive_unbounded) - finding F4. Unconditionally, over ANY input implementation and every type: every SINGLE request is at most max(16 KiB, largest boxed pointee / list node of the type) (every_request_small). Also: chunk reservations <= 16 KiB one chunk at a time; hostile primitive counts rejected over any faithful input; held memory of decoded values linear in the encoding. The request model is tied to the crate by exact comparison with a counting allocator (count, sum and maximum of requests, per input, slice and unknown-length input).",
         "level_note": "Partial: the theorem is about the crate's own allocation sites as modelled in Impl.decodeR; what std does behind them (B-tree node allocation - modelled as at most one node per element -, Rc/Arc re-boxing, Bytes/BitVec wrappers, GenericArray's temporary Vec of fixed size) is MEASURED against fixed generous bounds, not proved. Known finding F4 (zero-width element types: LinkedList<()>, Vec of an all-skipped struct) is reported as KNOWN-FINDING, matched by type; any other breach of the bound or disagreement with the request model is a violation.",
         "trusted_base": COMMON_TB + ["the harness's counting #[global_allocator] (self-tested each run); Vec::reserve_exact / Box allocation request exactly what is asked (std); std collections' internal allocation behaviour is measured, not modelled"],
